@@ -138,73 +138,89 @@ func TestC12_Scripts(t *testing.T) {
 
 // C13: a blobber's allocated size equals the sum of its per-blobber sizes over the open allocations it serves and never
 // exceeds its capacity when an allocation is assigned to it; its stake pool's total offers equal the sum of those offers.
+var c13ClosedShared = 0
+
+var c13After = func(m *machine, txn *transaction.Transaction, o sim.Outcome, before *snapshot) error {
+	v := m.w.View()
+	size := map[string]int64{}
+	offers := map[string]uint64{}
+	serving := map[string]int{}
+	for _, a := range m.allocs {
+		al, aok, _ := v.Allocation(a.id)
+		if !aok {
+			continue
+		}
+		for _, b := range al.Blobbers {
+			size[b.BlobberID] += b.Size
+			offers[b.BlobberID] += b.Offer
+			serving[b.BlobberID]++
+		}
+	}
+	for _, b := range m.w.Blobbers {
+		bl, bok, _ := v.Blobber(b.ID())
+		if !bok {
+			continue
+		}
+		if bl.Allocated != size[b.ID()] {
+			return fmt.Errorf("%s", m.viol("allocated-differs", "blobber %s: Allocated %d, sum of its sizes over open allocations %d (after %s)", m.h.Label(b.ID()), bl.Allocated, size[b.ID()], txn.FunctionName))
+		}
+		if sp, sok, _ := v.StakePool(b); sok && sp.TotalOffers != offers[b.ID()] {
+			key := "offers-differ"
+			if bl.Killed || bl.ShutDown || sp.Killed {
+				key = "offers-differ-after-kill"
+			}
+			if !vkit.For("C13").Known(key) {
+				return fmt.Errorf("%s", m.viol(key, "blobber %s (killed=%v shutdown=%v): stake pool TotalOffers %d, sum of the offers of its open allocations %d (after %s)", m.h.Label(b.ID()), bl.Killed, bl.ShutDown, sp.TotalOffers, offers[b.ID()], txn.FunctionName))
+			}
+		}
+		if pb, had := before.blob[b.ID()]; had && !o.Failed && bl.Allocated > pb.Allocated && bl.Allocated > bl.Capacity {
+			return fmt.Errorf("%s", m.viol("allocated-above-capacity", "blobber %s: Allocated %d > Capacity %d right after %s assigned more to it", m.h.Label(b.ID()), bl.Allocated, bl.Capacity, txn.FunctionName))
+		}
+	}
+	if !o.Failed && (txn.FunctionName == "cancel_allocation" || txn.FunctionName == "finalize_allocation") {
+		for id, n := range serving {
+			_ = id
+			if n >= 1 {
+				c13ClosedShared++
+				break
+			}
+		}
+	}
+	return nil
+}
+
+var c13Finish = func(m *machine) (bool, string) {
+	// liveness consequence: every open allocation can still be cancelled by its owner on a scratch fork
+	for _, a := range m.openAllocs() {
+		f := m.h.Cur.Fork()
+		txn := m.w.CancelAllocation(a.owner, a.id)
+		o := f.Exec(txn)
+		if o.Failed && containsAny(o.Output, "offer", "underflow", "negative") {
+			if !vkit.For("C13").Known("close-blocked-by-offers") {
+				m.fail("close-blocked-by-offers", "the owner cannot cancel allocation %s any more: %s", a.id[:8], o.Output)
+			}
+		}
+	}
+	nt := c13ClosedShared >= 1 && len(m.allocs) >= 2
+	c13ClosedShared = 0
+	return nt, "c13"
+}
+
+const c13Oracle = "; oracle after every applied transaction, per blobber: Allocated == sum over the open allocations of its per-blobber Size; stake pool TotalOffers == sum of those allocations' offers; Allocated <= Capacity right after a transaction that assigned an allocation to it; and every open allocation's owner can still close it: a dry-run cancel on a scratch fork must not fail for lack of offers; non-trivial = history that created >= 2 allocations and in which a cancel / finalize succeeded while some blobber still served another open allocation of the history; distinct by history"
+
 func TestC13_CapacityAndOffers(t *testing.T) {
-	closedShared := 0
-	runMachine(t, "C13", storageDomain+"; oracle after every applied transaction, per blobber: Allocated == sum over the open allocations of its per-blobber Size; stake pool TotalOffers == sum of those allocations' offers; Allocated <= Capacity right after a transaction that assigned an allocation to it; and every open allocation's owner can still close it: a dry-run cancel on a scratch fork must not fail for lack of offers; non-trivial = history that created >= 2 allocations and in which a cancel / finalize succeeded while some blobber still served another open allocation of the history; distinct by history", 40, 90,
-		func(m *machine, txn *transaction.Transaction, o sim.Outcome, before *snapshot) error {
-			v := m.w.View()
-			size := map[string]int64{}
-			offers := map[string]uint64{}
-			serving := map[string]int{}
-			for _, a := range m.allocs {
-				al, aok, _ := v.Allocation(a.id)
-				if !aok {
-					continue
-				}
-				for _, b := range al.Blobbers {
-					size[b.BlobberID] += b.Size
-					offers[b.BlobberID] += b.Offer
-					serving[b.BlobberID]++
-				}
-			}
-			for _, b := range m.w.Blobbers {
-				bl, bok, _ := v.Blobber(b.ID())
-				if !bok {
-					continue
-				}
-				if bl.Allocated != size[b.ID()] {
-					return fmt.Errorf("%s", m.viol("allocated-differs", "blobber %s: Allocated %d, sum of its sizes over open allocations %d (after %s)", m.h.Label(b.ID()), bl.Allocated, size[b.ID()], txn.FunctionName))
-				}
-				if sp, sok, _ := v.StakePool(b); sok && sp.TotalOffers != offers[b.ID()] {
-					key := "offers-differ"
-					if bl.Killed || bl.ShutDown || sp.Killed {
-						key = "offers-differ-after-kill"
-					}
-					if !vkit.For("C13").Known(key) {
-						return fmt.Errorf("%s", m.viol(key, "blobber %s (killed=%v shutdown=%v): stake pool TotalOffers %d, sum of the offers of its open allocations %d (after %s)", m.h.Label(b.ID()), bl.Killed, bl.ShutDown, sp.TotalOffers, offers[b.ID()], txn.FunctionName))
-					}
-				}
-				if pb, had := before.blob[b.ID()]; had && !o.Failed && bl.Allocated > pb.Allocated && bl.Allocated > bl.Capacity {
-					return fmt.Errorf("%s", m.viol("allocated-above-capacity", "blobber %s: Allocated %d > Capacity %d right after %s assigned more to it", m.h.Label(b.ID()), bl.Allocated, bl.Capacity, txn.FunctionName))
-				}
-			}
-			if !o.Failed && (txn.FunctionName == "cancel_allocation" || txn.FunctionName == "finalize_allocation") {
-				for id, n := range serving {
-					_ = id
-					if n >= 1 {
-						closedShared++
-						break
-					}
-				}
-			}
-			return nil
-		},
-		func(m *machine) (bool, string) {
-			// liveness consequence: every open allocation can still be cancelled by its owner on a scratch fork
-			for _, a := range m.openAllocs() {
-				f := m.h.Cur.Fork()
-				txn := m.w.CancelAllocation(a.owner, a.id)
-				o := f.Exec(txn)
-				if o.Failed && containsAny(o.Output, "offer", "underflow", "negative") {
-					if !vkit.For("C13").Known("close-blocked-by-offers") {
-						m.fail("close-blocked-by-offers", "the owner cannot cancel allocation %s any more: %s", a.id[:8], o.Output)
-					}
-				}
-			}
-			nt := closedShared >= 1 && len(m.allocs) >= 2
-			closedShared = 0
-			return nt, "c13"
-		})
+	caseReset["C13"] = func() { c13ClosedShared = 0 }
+	runMachine(t, "C13", storageDomain+c13Oracle, 40, 90, c13After, c13Finish)
+}
+
+// TestC13_Scripts runs the same oracle over scripted histories: blobbers re-pricing followed by extensions (the offer of
+// the existing size is re-priced), one request that replaces a blobber and grows the allocation, filling markers,
+// replacement of dead blobbers, repeated kills, settings changes, fork variants.
+func TestC13_Scripts(t *testing.T) {
+	caseReset["C13"] = func() { c13ClosedShared = 0 }
+	ops := []string{"newAlloc2", "newAlloc2", "newAlloc2", "fillAlloc", "upload", "repriceExtend", "repriceExtend", "repriceExtend", "replaceGrow", "replaceGrow", "replaceChallenged", "replaceBlobber",
+		"extend2", "extend2", "blobberSettings2", "blobberSettings2", "kill", "kill", "shutdown", "cancel", "cancel", "finalize", "stake", "unstake", "storageSettings", "advance", "missThenPass"}
+	runMachineOps(t, "C13", ops, "scripted storage histories (6 blobbers, 4 validators, fork variants): allocations with tight or generous locks, write-price / read-price / capacity-independent settings changes of blobbers followed by extensions, single requests that replace a blobber and grow or extend the allocation at once, replacement of blobbers with open challenges and of dead blobbers, repeated kills and shutdowns, stake changes, closes"+c13Oracle, 30, 60, c13After, c13Finish)
 }
 
 func containsAny(s string, subs ...string) bool {
